@@ -36,6 +36,7 @@ UNKNOWN = ["normal(100, 10)", "gaus(100, 10)", "gaussian(100, 10)", "gauss2(100,
            "foo(1, 2)", "lognormal(1000, 1.2)", "schulzzimm(1500,1000)", "flory(0.1)", "xgauss(100, 10)", "uniform_(1,2)"]
 GRID = [("gauss", (100.0, 10.0)), ("gauss", (10.0, 20.0)), ("gauss", (5000.0, 150.0)), ("uniform", (12.0, 72.0)), ("uniform", (500.0, 600.0)),
         ("schulz_zimm", (1500.0, 1000.0)), ("schulz_zimm", (5000.0, 4500.0)), ("schulz_zimm", (300.0, 200.0)), ("schulz_zimm", (1000.0, 900.0)),
+        ("schulz_zimm", (200.0, 100.0)), ("schulz_zimm", (1000.0, 500.0)), ("schulz_zimm", (408.0, 400.0)),
         ("log_normal", (50.0, 1.1)), ("log_normal", (1000.0, 1.8)), ("poisson", (65.0,)), ("poisson", (900.0,)), ("poisson", (3.0,)),
         ("flory_schulz", (0.1,)), ("flory_schulz", (0.01,)), ("flory_schulz", (0.02,)), ("flory_schulz", (0.0011,)), ("flory_schulz", (0.5,))]
 
@@ -56,7 +57,8 @@ def dist_case(draw):
         return fam, (float(lo), float(lo + draw(st.integers(1, 3000))))
     if fam == "schulz_zimm":
         mn = r3(draw(st.floats(50, 5000)))
-        return fam, (r3(mn * draw(st.floats(1.05, 2.0))), mn)
+        ratio = draw(st.one_of(st.floats(1.05, 2.0), st.sampled_from([2.0, 1.5, 1.25, 1.1, 1.05])))
+        return fam, (r3(mn * ratio), mn)
     if fam == "log_normal":
         return fam, (r3(draw(st.floats(20, 1e4))), r3(draw(st.floats(1.02, 3.0))))
     if fam == "poisson":
@@ -159,7 +161,10 @@ def check_case(acc, fam, params, ndraw, seed):
                 delta = 2.5 * max(ref.pdf(max(1e-9, (ref.z - 1) / ref.z * ref.mn if ref.z > 1 else 1.0)), ref.pdf(max(1.0, a)), ref.pdf(b)) + 1e-7
             if not (got >= -1e-12):
                 acc.violation("interval_negative", f"{txt}: probability of ({a}, {b}] is {got}", case, sig)
-            if own is not None and abs(got - own) > 1e-6 + (1e-9 if fam != "schulz_zimm" else 1e-9):
+            # the integer-sampled Schulz-Zimm density sums to 1 + O(1/Mn); scipy clips its cumulative sum at 1, so the upper tail
+            # is incoherent by at most that excess - same slack as for the normalisation
+            slack = (1.0 / ref.mn) if fam == "schulz_zimm" else 0.0
+            if own is not None and abs(got - own) > 1e-6 + slack:
                 acc.violation("interval_vs_points", f"{txt}: prob_mw(({a}, {b}]) = {got!r} but its own point probabilities give {own!r}", case, sig)
             if abs(got - want) > delta:
                 acc.violation("interval_vs_reference", f"{txt}: prob_mw(({a}, {b}]) = {got!r}, documented law gives {want!r} (tolerance {delta:.3g})", case, sig)
